@@ -37,6 +37,24 @@ IMG(bits1_img, "bits_gray1"); IMG(bits2_img, "bits_gray2"); IMG(bits4_img, "bits
 IMG(bits121_img, "bits_rgb121"); IMG(bits222_img, "bits_rgb222"); IMG(bits565_img, "bits_bgr565"); IMG(bits101010_img, "bits_rgb101010");
 IMG(bits121212_img, "bits_rgb121212"); IMG(bits7777_img, "bits_rgba7777");
 
+// An allocator whose blocks start at an ODD address (std::allocator's blocks are 16-byte aligned, which would hide a
+// missing alignment slack for every alignment up to 16). The block is exactly n bytes: ASan's redzone starts right after it.
+template <class T> struct MisAlloc
+{
+    using value_type = T;
+    MisAlloc() = default;
+    template <class U> MisAlloc(MisAlloc<U> const&) {}
+    template <class U> struct rebind { using other = MisAlloc<U>; };
+    T* allocate(std::size_t n) { unsigned char* p = static_cast<unsigned char*>(std::malloc(n * sizeof(T) + 1)); if (!p) throw std::bad_alloc(); return reinterpret_cast<T*>(p + 1); }
+    void deallocate(T* p, std::size_t) { std::free(reinterpret_cast<unsigned char*>(p) - 1); }
+    bool operator==(MisAlloc const&) const { return true; }
+    bool operator!=(MisAlloc const&) const { return false; }
+};
+using rgb8_odd_img = gil::image<gil::rgb8_pixel_t, false, MisAlloc<unsigned char>>;
+using rgb16_planar_odd_img = gil::image<gil::rgb16_pixel_t, true, MisAlloc<unsigned char>>;
+using bits565_odd_img = gil::bit_aligned_image3_type<5, 6, 5, gil::bgr_layout_t, MisAlloc<unsigned char>>::type;
+IMG(rgb8_odd_img, "rgb8_oddbase"); IMG(rgb16_planar_odd_img, "rgb16_planar_oddbase"); IMG(bits565_odd_img, "bits_bgr565_oddbase");
+
 template <class Img> struct Checker
 {
     vh::Ctx& ctx;
@@ -170,6 +188,8 @@ IMG_GROUP(packed565_u16, packed565_img) IMG_GROUP(packed1010102_u32, packed10101
 IMG_GROUP(bits_gray1, bits1_img) IMG_GROUP(bits_gray2, bits2_img) IMG_GROUP(bits_gray4, bits4_img) IMG_GROUP(bits_gray7, bits7_img)
 #elif VS_SET == 5
 IMG_GROUP(bits_rgb121, bits121_img) IMG_GROUP(bits_rgb222, bits222_img) IMG_GROUP(bits_bgr565, bits565_img)
+#elif VS_SET == 7
+IMG_GROUP(rgb8_oddbase, rgb8_odd_img) IMG_GROUP(rgb16_planar_oddbase, rgb16_planar_odd_img) IMG_GROUP(bits_bgr565_oddbase, bits565_odd_img)
 #elif VS_SET == 6
 IMG_GROUP(bits_rgb101010, bits101010_img) IMG_GROUP(bits_rgb121212, bits121212_img) IMG_GROUP(bits_rgba7777, bits7777_img)
 #endif
